@@ -60,17 +60,34 @@ def confirm(prop, case, group, work, bad, plan):
             status, why = "unconfirmed", "failure did not recur when the harness was re-run alone"
         else:
             why = "no concrete trace extracted; solver verdict stands (re-run reproduced the failed check)"
-    rec["confirmation"] = {"status": status, "why": why, "wall_s": round(time.time() - t0, 1)}
     try:
         import native
         nat = native.replay(rec, work)
-        rec["native_replay"] = nat
-    except Exception as e:  # native replay is additional evidence; its absence is recorded, not hidden
-        rec["native_replay"] = {"status": "not-run", "why": repr(e)[:200]}
+    except Exception as e:
+        nat = {"status": "not-run", "why": repr(e)[:200]}
+    rec["native_replay"] = nat
+    # Policy: a violation is reported when the counterexample replays natively (dev/release/Miri).
+    # If the native replay is unavailable (seam / feature configurations) the solver verdict of the
+    # re-run stands and is labelled as such.  If it is available but does not reproduce: failed CBMC
+    # memory-safety checks are standard-level UB no native tool need confirm -> reported, labelled
+    # "UB class, solver-only"; a failed functional assertion that does not reproduce means the encoding
+    # or a shim is wrong -> inconclusive, not a violation.
+    if status == "confirmed":
+        ns = nat.get("status")
+        ub_class = any(re.search(r"dereference failure|pointer|memcpy|free|deallocat|out of bounds|dead object|invalid", b["desc"]) and not b["desc"].startswith("[") for b in bad)
+        if ns == "reproduced":
+            why = "reproduced natively in: " + ", ".join(nat.get("reproduced_in", []))
+        elif ns in ("not-available", "not-run"):
+            why = "native replay not available for this configuration; solver re-run reproduced the failed check"
+        elif ub_class:
+            why = "UB class (CBMC memory-safety check); not observable natively (%s); solver-only" % ns
+        else:
+            status, why = "unconfirmed", "functional counterexample does not replay natively (%s): encoding or shim suspected" % ns
+    rec["confirmation"] = {"status": status, "why": why, "wall_s": round(time.time() - t0, 1)}
     with open(path, "w") as f:
         json.dump(rec, f, indent=1)
     summary = "%s: %s" % (case.name, "; ".join("%s @ %s" % (b["desc"], b["loc"]) for b in bad[:2]))
-    return {"status": status, "why": why, "path": path, "summary": summary[:500]}
+    return {"status": status, "why": why, "path": path, "summary": (summary + "  [" + why + "]")[:700]}
 
 
 def replay_file(path):
